@@ -934,7 +934,11 @@ pub fn run() -> SimResult {
                 8 => {
                     tr!("{} drop #{}", what, hi);
                     let h = pool.swap_remove(hi);
-                    libcall("drop handle", move || drop(h))?;
+                    if chance(1, 5) {
+                        crate::runner::drop_unwinding(h)?;
+                    } else {
+                        libcall("drop handle", move || drop(h))?;
+                    }
                 }
                 // ---- mutations of owned lazy values
                 _ => {
